@@ -62,10 +62,26 @@ def query(tu, name, extra_flags=()):
     cc = "clang" if tu.endswith(".c") else "clang++"
     cmd = [cc] + tu_flags(tu) + list(extra_flags) + ["-fsyntax-only", "-Wno-everything", "-Xclang", "-ast-dump=json",
                                                      "-Xclang", "-ast-dump-filter=" + name, os.path.join(REPO, tu)]
-    p = subprocess.run(cmd, capture_output=True, text=True)
-    if p.returncode != 0:
-        raise ClangError("clang failed on %s: %s" % (tu, p.stderr[-2000:]))
-    s = p.stdout
+    # opt-in development cache (VF_AST_CACHE=<dir>): keyed by command line + content of the TU itself; headers are
+    # NOT hashed, so it is off by default and must not be used for runs whose verdict is recorded.
+    cdir, cfile = os.environ.get("VF_AST_CACHE"), None
+    if cdir:
+        with open(os.path.join(REPO, tu), "rb") as f:
+            key = hashlib.sha1(("\0".join(cmd)).encode() + b"\0" + f.read()).hexdigest()
+        os.makedirs(cdir, exist_ok=True)
+        cfile = os.path.join(cdir, key + ".json")
+    if cfile and os.path.exists(cfile):
+        with open(cfile) as f:
+            s = f.read()
+    else:
+        p = subprocess.run(cmd, capture_output=True, text=True)
+        if p.returncode != 0:
+            raise ClangError("clang failed on %s: %s" % (tu, p.stderr[-2000:]))
+        s = p.stdout
+        if cfile:
+            with open(cfile + ".tmp%d" % os.getpid(), "w") as f:
+                f.write(s)
+            os.replace(cfile + ".tmp%d" % os.getpid(), cfile)
     dec = json.JSONDecoder()
     i, objs = 0, []
     n = len(s)
